@@ -36,6 +36,11 @@ fn main() {
         println!("wrote {n} inputs to {dir}");
         return;
     }
+    if prop == "ADVDIGEST" {
+        util::install_quiet_panic_hook();
+        rqv::c07::adv_digest(args[2].parse::<u64>().unwrap(), args[3].parse::<u64>().unwrap());
+        return;
+    }
     if prop == "FUZZ" {
         // rqv FUZZ <target> <file|dir>...: run the fuzz target's oracle on saved inputs
         util::install_quiet_panic_hook();
